@@ -149,93 +149,99 @@ func c09ClientScenarios(tier string) []*Scenario {
 			// a message or a close for the RPC's stream
 			scs = append(scs, c09ReverseClientScenario(fr, nm, 0))
 		}
-		scs = append(scs, &Scenario{
-			Name: "c09/h1c/" + strings.Join(nm, ","), Prop: "C09",
-			Desc: fmt.Sprintf("real tunnel client runs one Bidi RPC against a scripted raw server that answers its new_stream with %v and then ends the tunnel", nm),
-			Opt:  Options{Level: "io", Bound: c09bBound(len(fr), tier)},
-			Run: func(w *World) {
-				n := w.NewRawServerNet("T", true, func(rs *RawServerConn) error {
-					if err := rs.Send(fSettings(-1, 65536, 0, 1)); err != nil {
-						return err
-					}
-					if _, err := rs.RecvUntil(func(m *tunnelpb.ClientToServer) bool { return m.GetNewStream() != nil }); err != nil {
-						return nil
-					}
-					for _, f := range fr {
-						if rs.Send(f.mk()) != nil {
-							break
-						}
-					}
-					// give the client's RPC the time to observe everything, then hang up
-					w.WaitUntil("raw:rpc-done", func() bool { return w.Vals["rpc-done"] != nil })
-					return nil
-				})
-				ctx, cancel := context.WithCancel(context.Background())
-				defer cancel()
-				ch, err := grpctunnel.NewChannel(tunnelpb.NewTunnelServiceClient(n)).Start(ctx)
-				if err != nil {
-					w.Log(Event{Actor: "env", Op: "start", Err: err.Error(), Code: "start-failed"})
-					w.Vals["rpc-done"] = true
-					return
-				}
-				w.Vals["ch"] = ch
-				spec := CallSpec{ID: "r1", Tag: 1, Method: "Bidi", Ops: []COp{{K: "new"}, {K: "send", Size: 3}, {K: "waitpeer"}, {K: "recvall"}, {K: "trailer"}}}
-				th := w.Go("caller:r1", true, func() { w.RunCall(ch, &spec) })
-				// the RPC may legitimately wait forever for a close the peer never sends:
-				// once the peer has said everything and the client is quiescent, cancel it
-				w.GoLow("fault:giveup", func() {
-					w.WaitUntil("giveup", func() bool { return w.cancelOf("r1") != nil })
-					w.Log(Event{Actor: "env", Op: "giveup"})
-					if c := w.cancelOf("r1"); c != nil {
-						c()
-					}
-				})
-				w.Join(th)
-				// let the client consume everything the peer said before Err() is read
-				w.WaitUntil("frames-consumed", func() bool {
-					select {
-					case <-ch.Done():
-						return true
-					default:
-					}
-					// the peer must have said everything it has to say and the client must have
-					// digested it
-					if !w.RecvLoopsIdle() {
-						return false
-					}
-					for _, th := range w.S.Threads {
-						if strings.HasPrefix(th.Name, "net:") && strings.HasSuffix(th.Name, ":handler") {
-							if !(th.Done || (th.Parked && th.Site == "raw:rpc-done")) {
-								return false
-							}
-						}
-					}
-					for _, ms := range n.Streams {
-						if len(ms.s2c) > 0 {
-							return false
-						}
-					}
-					return true
-				})
-				w.Point("env:err")
-				em, ec := errFields(ch.Err())
-				w.Log(Event{Actor: "env", Op: "err", Err: em, Code: ec})
-				w.Vals["rpc-done"] = true
-				ch.Close()
-				w.WaitUntil("tunnel-end", func() bool {
-					for _, ms := range n.Streams {
-						if !ms.Finished {
-							return false
-						}
-					}
-					return true
-				})
-				w.Drain()
-			},
-			Check: c09ClientCheck(fr, nm),
-		})
+		scs = append(scs, c09ClientScenario("c09/h1c/"+strings.Join(nm, ","), fr, nm, c09bBound(len(fr), tier)))
 	}
 	return scs
+}
+
+// c09ClientScenario: the real tunnel client runs one Bidi RPC against a scripted raw server that
+// answers its new_stream with the given frames.
+func c09ClientScenario(name string, fr []s2cFrame, nm []string, bound int) *Scenario {
+	return &Scenario{
+		Name: name, Prop: "C09",
+		Desc: fmt.Sprintf("real tunnel client runs one Bidi RPC against a scripted raw server that answers its new_stream with %v and then ends the tunnel", nm),
+		Opt:  Options{Level: "io", Bound: bound, AllocRisk: strings.Contains(name, "max") || strings.Contains(name, "GiB")},
+		Run: func(w *World) {
+			n := w.NewRawServerNet("T", true, func(rs *RawServerConn) error {
+				if err := rs.Send(fSettings(-1, 65536, 0, 1)); err != nil {
+					return err
+				}
+				if _, err := rs.RecvUntil(func(m *tunnelpb.ClientToServer) bool { return m.GetNewStream() != nil }); err != nil {
+					return nil
+				}
+				for _, f := range fr {
+					if rs.Send(f.mk()) != nil {
+						break
+					}
+				}
+				// give the client's RPC the time to observe everything, then hang up
+				w.WaitUntil("raw:rpc-done", func() bool { return w.Vals["rpc-done"] != nil })
+				return nil
+			})
+			ctx, cancel := context.WithCancel(context.Background())
+			defer cancel()
+			ch, err := grpctunnel.NewChannel(tunnelpb.NewTunnelServiceClient(n)).Start(ctx)
+			if err != nil {
+				w.Log(Event{Actor: "env", Op: "start", Err: err.Error(), Code: "start-failed"})
+				w.Vals["rpc-done"] = true
+				return
+			}
+			w.Vals["ch"] = ch
+			spec := CallSpec{ID: "r1", Tag: 1, Method: "Bidi", Ops: []COp{{K: "new"}, {K: "send", Size: 3}, {K: "waitpeer"}, {K: "recvall"}, {K: "trailer"}}}
+			th := w.Go("caller:r1", true, func() { w.RunCall(ch, &spec) })
+			// the RPC may legitimately wait forever for a close the peer never sends:
+			// once the peer has said everything and the client is quiescent, cancel it
+			w.GoLow("fault:giveup", func() {
+				w.WaitUntil("giveup", func() bool { return w.cancelOf("r1") != nil })
+				w.Log(Event{Actor: "env", Op: "giveup"})
+				if c := w.cancelOf("r1"); c != nil {
+					c()
+				}
+			})
+			w.Join(th)
+			// let the client consume everything the peer said before Err() is read
+			w.WaitUntil("frames-consumed", func() bool {
+				select {
+				case <-ch.Done():
+					return true
+				default:
+				}
+				// the peer must have said everything it has to say and the client must have
+				// digested it
+				if !w.RecvLoopsIdle() {
+					return false
+				}
+				for _, th := range w.S.Threads {
+					if strings.HasPrefix(th.Name, "net:") && strings.HasSuffix(th.Name, ":handler") {
+						if !(th.Done || (th.Parked && th.Site == "raw:rpc-done")) {
+							return false
+						}
+					}
+				}
+				for _, ms := range n.Streams {
+					if len(ms.s2c) > 0 {
+						return false
+					}
+				}
+				return true
+			})
+			w.Point("env:err")
+			em, ec := errFields(ch.Err())
+			w.Log(Event{Actor: "env", Op: "err", Err: em, Code: ec})
+			w.Vals["rpc-done"] = true
+			ch.Close()
+			w.WaitUntil("tunnel-end", func() bool {
+				for _, ms := range n.Streams {
+					if !ms.Finished {
+						return false
+					}
+				}
+				return true
+			})
+			w.Drain()
+		},
+		Check: c09ClientCheck(fr, nm),
+	}
 }
 
 func c09bBound(n int, tier string) int {
@@ -329,7 +335,7 @@ func c09ReverseClientScenario(fr []s2cFrame, nm []string, bound int) *Scenario {
 	return &Scenario{
 		Name: "c09/h1rc/" + strings.Join(nm, ","), Prop: "C09",
 		Desc: fmt.Sprintf("a scripted network client opens a reverse tunnel to the real handler; the handler's pooled channel runs one Bidi RPC; the scripted peer answers its new_stream with %v and then hangs up", nm),
-		Opt:  Options{Level: "io", Bound: bound},
+		Opt:  Options{Level: "io", Bound: bound, AllocRisk: strings.Contains(strings.Join(nm, ","), "max")},
 		Run: func(w *World) {
 			var revCh grpctunnel.TunnelChannel
 			h := grpctunnel.NewTunnelServiceHandler(grpctunnel.TunnelServiceHandlerOptions{
